@@ -112,6 +112,32 @@ class Property(object):
         if text not in self.assumptions:
             self.assumptions.append(text)
 
+    def include(self, other, names):
+        """a callee's contract that this property's checks assume (and that is proved under another property): its harnesses are
+        run under this property too, so that a change which breaks the callee is reported here as the broken assumption"""
+        src = REGISTRY.prop(other)
+        found = set()
+        for h in list(src.harnesses):
+            if h.name in names:
+                found.add(h.name)
+                self.harnesses.append(Harness(self, "assumed-contract(%s)/%s" % (other, h.name), h.fn, h.cases, h.opts))
+        missing = set(names) - found
+        if missing:
+            raise KeyError("include(%s): no harness named %s" % (other, sorted(missing)))
+
+    def frame_check(self, extra_roots=()):
+        """the assumption behind every per-call contract of this property, discharged by the frame analysis: the functions
+        reachable from the functions under contract write to none of their caller's objects, and read no module-level
+        object that any function of the package writes (no hidden state between calls)"""
+        prop = self
+
+        def run(tier):
+            from .frames import property_frame
+            roots = sorted(f for f in prop.functions if "*:*" not in f) + list(extra_roots)
+            for r in property_frame(roots):
+                yield r
+        self.ground.append(("frames/no-hidden-state-behind-the-contracts", run, {}))
+
 
 # ------------------------------------------------------------- symbolic ctx
 class SymCtx(object):
